@@ -75,6 +75,7 @@ var (
 	known     map[string]KnownFinding // key property|signature
 	knownOnce sync.Once
 	crashLog  = os.Getenv("VERIF_CRASHLOG")
+	paused    bool
 )
 
 func newStats() *Stats {
@@ -144,6 +145,9 @@ func Case(c any, nontrivial bool, labels ...string) {
 func CaseKey(h uint64, nontrivial bool, sampleFn func() any, labels ...string) {
 	mu.Lock()
 	defer mu.Unlock()
+	if paused {
+		return
+	}
 	cur.Evaluations++
 	for _, l := range labels {
 		cur.Labels[l]++
@@ -221,6 +225,10 @@ func Inconclusive(what string) {
 // KnownObserved records that a listed known finding was reproduced.
 func KnownObserved(property, signature, what string) {
 	mu.Lock()
+	if paused {
+		mu.Unlock()
+		return
+	}
 	cur.KnownSeen[signature] = what
 	cur.ExcludedKnown[signature]++
 	mu.Unlock()
@@ -243,6 +251,35 @@ func Violate(tb TB, property, check, signature string, c any, format string, arg
 	tb.Fatalf("VIOLATION-CANDIDATE property=%s signature=%s: %s", property, signature, msg)
 	return false
 }
+
+// LastViolation returns a copy of the remembered violation of a check (nil if none).
+func LastViolation(check string) *Violation {
+	mu.Lock()
+	defer mu.Unlock()
+	if v, ok := lastViol[check]; ok {
+		c := *v
+		return &c
+	}
+	return nil
+}
+
+// SetViolation replaces the remembered violation of a check.
+func SetViolation(check string, v *Violation) { mu.Lock(); lastViol[check] = v; mu.Unlock() }
+
+// Checks with a remembered violation.
+func ViolatedChecks() []string {
+	mu.Lock()
+	defer mu.Unlock()
+	var out []string
+	for k := range lastViol {
+		out = append(out, k)
+	}
+	sort.Strings(out)
+	return out
+}
+
+// Pause suspends case counting (used while a failure is being minimised).
+func Pause(p bool) { mu.Lock(); paused = p; mu.Unlock() }
 
 // ClearViolation forgets the remembered violation of a check (used when a
 // rapid run ends green after flaky failures).
